@@ -7,7 +7,7 @@ from the current source.  Deliberately dumb: anchored regular expressions over s
 items.  A missing anchor raises TranslateError -- the caller reports the tie as broken;
 there is never a fallback to a cached value.
 """
-import re, sys, os, json
+import re, sys, os, json, subprocess
 
 REPO = os.environ.get("VERIF_REPO", "/repo")
 
@@ -16,12 +16,32 @@ class TranslateError(Exception):
     pass
 
 
+_SRC_CACHE = {}
+
+
 def src(path):
+    """source text of a repository file; Rust files go through rustfmt (default style) first, so that a change of
+    layout only (line width, call and chain wrapping, trailing commas) does not move an anchor.  Without a working
+    rustfmt, or for a file it rejects, the raw text is used."""
+    if path in _SRC_CACHE:
+        return _SRC_CACHE[path]
     p = os.path.join(REPO, path)
     try:
-        return open(p).read()
+        text = open(p).read()
     except OSError as e:
         raise TranslateError(f"cannot read {path}: {e}")
+    if path.endswith(".rs") and not os.environ.get("VERIF_NO_RUSTFMT"):
+        try:
+            r = subprocess.run(["rustfmt", "--edition", "2021", "--emit", "stdout", "--config",
+                                "max_width=100,use_small_heuristics=Default,newline_style=Unix"],
+                               input=text, stdout=subprocess.PIPE, stderr=subprocess.PIPE, text=True, timeout=60,
+                               cwd="/")
+            if r.returncode == 0 and r.stdout.strip():
+                text = r.stdout
+        except (OSError, subprocess.SubprocessError):
+            pass
+    _SRC_CACHE[path] = text
+    return text
 
 
 def need(pattern, text, what, flags=re.S):
